@@ -29,7 +29,7 @@ type verifLifeDBI struct {
 	closed         bool
 	closes         int
 	usesAfterClose int
-	hasKey         bool
+	key            byte // the one key this back end holds (solver-chosen): validation looks a key up
 }
 
 var verifBackends []*verifLifeDBI
@@ -39,8 +39,8 @@ func verifEv(b *verifLifeDBI, what string) {
 	verifEvents = append(verifEvents, string(rune('A'+b.id))+"."+what)
 }
 
-func verifNewBackend(hasKey bool) *verifLifeDBI {
-	b := &verifLifeDBI{id: len(verifBackends), hasKey: hasKey}
+func verifNewBackend() *verifLifeDBI {
+	b := &verifLifeDBI{id: len(verifBackends), key: nd.Byte()}
 	verifBackends = append(verifBackends, b)
 	return b
 }
@@ -60,7 +60,8 @@ func (b *verifLifeDBI) Find(key []byte, c db.Context) ([]byte, error) {
 }
 func (b *verifLifeDBI) ForEach(key []byte, f func(value []byte) error, c db.Context) error {
 	b.use()
-	if b.hasKey {
+	// whether the validation key is present is the solver's decision (key bytes are symbolic)
+	if len(key) == 1 && key[0] == b.key {
 		return f([]byte{1})
 	}
 	return nil
@@ -95,14 +96,11 @@ func (b *verifLifeDBI) Reload(path string) (db.DBI, error) {
 		b.usesAfterClose++
 		verifEv(b, "USE-AFTER-CLOSE(in-Reload)")
 	}
-	switch nd.Choice(4) {
+	switch nd.Choice(3) {
 	case 0:
-		verifEv(b, "Reload->new+key")
-		return verifNewBackend(true), nil // a new back end holding the validation key
+		verifEv(b, "Reload->new")
+		return verifNewBackend(), nil // a new back end (it may or may not hold the validation key)
 	case 1:
-		verifEv(b, "Reload->new-nokey")
-		return verifNewBackend(false), nil // a new back end without the validation key
-	case 2:
 		verifEv(b, "Reload->same")
 		return b, nil // the same back end (RocksDB catch-up)
 	}
@@ -134,8 +132,8 @@ func verifCheckLifecycle(served *verifLifeDBI, shutdown bool, tag string) {
 // place where a timed-out reload's goroutine can outlive the back end it works on.
 func H06_late() {
 	verifBackends, verifEvents = nil, nil
-	env := verifNewHandler(verifNewBackend(true), CacheConfig{})
-	env.h.dbConfig.ValidationKey = []byte("k")
+	env := verifNewHandler(verifNewBackend(), CacheConfig{})
+	env.h.dbConfig.ValidationKey = []byte{nd.Byte()}
 	nd.SchedExplore(nd.Param("sched"))
 	_ = env.h.Reload(*NewFullReloadSignal("/db/one"))
 	_ = env.h.Reload(*NewFullReloadSignal("/db/two"))
@@ -160,9 +158,9 @@ func H06_life() {
 	ops, maxReaders := nd.Param("ops"), nd.Param("readers")
 	verifBackends = nil
 	verifEvents = nil
-	first := verifNewBackend(nd.Bool()) // the served back end may itself lack the validation key
+	first := verifNewBackend() // the served back end may itself lack the validation key
 	env := verifNewHandler(first, CacheConfig{})
-	env.h.dbConfig.ValidationKey = []byte("k")
+	env.h.dbConfig.ValidationKey = []byte{nd.Byte()}
 	if nd.Param("ctl") == 1 {
 		env.h.dbConfig.ControlPath = "/ctl" // reloads are signalled through files that Reload removes afterwards
 	}
